@@ -33,6 +33,9 @@ T = TypeVar('T', bound='PrefixSid')
 class PrefixSid(Attribute):
     ID: int = Attribute.CODE.BGP_PREFIX_SID
     FLAG: int = Attribute.Flag.TRANSITIVE | Attribute.Flag.OPTIONAL
+    # RFC 8669 section 6: a malformed BGP Prefix-SID attribute is handled with attribute discard,
+    # whatever the TLV decoder complained with (Notify, ValueError, IndexError)
+    DISCARD: ClassVar[bool] = True
     CACHING: ClassVar[bool] = True
     TLV: ClassVar[int] = -1
 
